@@ -26,10 +26,12 @@ from harness import common, front
 PID = 'C01'
 
 NEAR = ['<', '<d', '<dtml', '<dtml-', '</dtml-', '<!--', '<!--#', '-->', '&', '&dt', '&dtml', '&dtml-', '&dtml.',
-        ';', '%', '%(', ')', ')s', ')[', '"', '>', ' ', '\n', 'x', '\t', '\r', '&dtml-x', 'é']
+        ';', '%', '%(', ')', ')s', ')[', '"', '>', ' ', '\n', 'x', '\t', '\r', '&dtml-x', 'é',
+        # the tag prefixes in another letter case are text (tag names are case-sensitive)
+        '<DTML-', '</Dtml-', '&DTML-']
 EOLS = ['', '\n', ' \n', '\t \n', '  ', '\n\n', ' \r\n', '\r\n', '\x0b\n', '\xa0\n', ' \n \n', '\n ', 'q\n', ' \t\t\n']
 TEXTS = ['t', 'a<b', 'x & y', '<d', '&dt;', '100%', '%(', 'a)s', '"q"', '<!-- c -->', ' lead', 'trail ', '\nnl\n', '<dtml',
-         '&dtml', 'p.q-r', ';', '>', 'é<', '%%', ')[', '&dtml.', '']
+         '&dtml', 'p.q-r', ';', '>', 'é<', '%%', ')[', '&dtml.', '', '<DTML-VAR v>', '<Dtml-if x>t</Dtml-if>', '&DTML-v;', '<!--#VAR v-->']
 ENVS = [{'x': 'X', 'y': False, 's': 2, 'v': 'VAL', 'o': None},
         {'x': False, 'y': 'Y', 's': 0, 'v': 'W', 'o': None},
         {'x': False, 'y': False, 's': 1, 'v': 'val', 'o': None}]
